@@ -61,6 +61,21 @@ def check(F, mon, c, texts, header_flag, delimiter, quoting, lineterm, via, info
             with os.fdopen(fd, "w", encoding="utf-8", newline="") as f:
                 f.write(text)
             st, t, e = attempt(lambda: read_csv(path, delimiter=delimiter, has_header=header_flag))
+        elif via.startswith("open:") or via.startswith("path:"):
+            # a real file in another encoding: opened by the caller (the file object decodes) or named with encoding=...
+            enc = via.split(":")[1]
+            fd, path = tempfile.mkstemp(suffix=".csv")
+            try:
+                with os.fdopen(fd, "w", encoding=enc, newline="") as f:
+                    f.write(text)
+            except UnicodeEncodeError:
+                F.skip("text not encodable in " + enc)
+                return 0
+            if via.startswith("open:"):
+                with open(path, "r", encoding=enc, newline="") as fh:
+                    st, t, e = attempt(lambda: read_csv(fh, delimiter=delimiter, has_header=header_flag))
+            else:
+                st, t, e = attempt(lambda: read_csv(path, delimiter=delimiter, has_header=header_flag, encoding=enc))
         else:
             st, t, e = attempt(lambda: read_csv(io.StringIO(text, newline=""), delimiter=delimiter, has_header=header_flag))
     finally:
@@ -74,9 +89,14 @@ def check(F, mon, c, texts, header_flag, delimiter, quoting, lineterm, via, info
         F.add("csv_error", c, type(t).__name__, "a table", **info)
         return 1
     if exp["nrows"] == 0:
-        # header-only or empty input: an empty table rather than an error
+        # header-only or empty input: an empty table rather than an error - with one column per header cell, named verbatim
         if len(t) != 0:
             F.add("csv_shape", c, len(t), 0, **info)
+        elif header_flag and texts:
+            if len(t.cols()) != len(texts[0]):
+                F.add("csv_shape", c, [0, len(t.cols())], [0, len(texts[0])], **info)
+            elif t.column_names() != list(texts[0]):
+                F.add("csv_names", c, t.column_names(), list(texts[0]), **info)
         return 1
     data = texts[1:] if header_flag else texts
     names = list(texts[0]) if header_flag else ["col_%d" % i for i in range(exp["ncols"])]
@@ -129,7 +149,7 @@ def replay(cases_path, out_path):
         # a cell text must not contain the chosen delimiter unless it is a "quoted" class (csv quoting handles both)
         quoting = [csv.QUOTE_MINIMAL, csv.QUOTE_ALL][(n // 4) % 2]
         lineterm = ["\n", "\r\n"][(n // 8) % 2]
-        via = ["path", "file"][(n // 2) % 2]
+        via = ["path", "file", "path", "file", "open:latin-1", "open:utf-16", "path:latin-1", "open:utf-8-sig", "path:utf-16", "open:cp1252"][(n // 2) % 10]
         info = {"delimiter": delimiter, "quoting": quoting, "lineterminator": repr(lineterm), "via": via, "texts": texts}
         ex += check(F, mon, c, texts, c["header"], delimiter, quoting, lineterm, via, info)
     json.dump({"executed": ex, "failures": F.items, "per_clause": F.per, "skipped": F.skipped, **mon.dump()}, open(out_path, "w"), default=str)
